@@ -60,6 +60,7 @@ type actJob struct {
 }
 
 type actWorld struct {
+	gpuDim bool // quantities are whole GPUs (else milli-cpu); the other dimension is not requested
 	vm     *resource_info.ResourceVectorMap
 	nodes  []*node_info.NodeInfo
 	ncpu   []float64
@@ -71,7 +72,11 @@ type actWorld struct {
 }
 
 func (w *actWorld) addNode(name string, cpu float64) {
-	w.nodes = append(w.nodes, vs.NewNode(name, cpu, 1<<40, 0, 110, 16000, w.vm))
+	if w.gpuDim {
+		w.nodes = append(w.nodes, vs.NewNode(name, 1<<30, 1<<40, cpu, 110, 16000, w.vm))
+	} else {
+		w.nodes = append(w.nodes, vs.NewNode(name, cpu, 1<<40, 0, 110, 16000, w.vm))
+	}
 	w.ncpu = append(w.ncpu, cpu)
 }
 
@@ -79,7 +84,12 @@ func (w *actWorld) addNode(name string, cpu float64) {
 func (w *actWorld) addJob(name, queue string, preemptible bool, prio int32, created int64, minMember int32, cpus []float64, statuses []pod_status.PodStatus, nodes []string) *actJob {
 	aj := &actJob{name: name, queue: queue, priority: prio, created: created, preempt: preemptible, cpu: cpus}
 	for i := range cpus {
-		t := vs.NewTask(vs.Name(name+"-t", i), name, "", cpus[i], 0, vs.GpuSpec{}, statuses[i], nodes[i], w.vm)
+		var t *pod_info.PodInfo
+		if w.gpuDim {
+			t = vs.NewTask(vs.Name(name+"-t", i), name, "", 100, 0, vs.GpuSpec{Whole: cpus[i]}, statuses[i], nodes[i], w.vm)
+		} else {
+			t = vs.NewTask(vs.Name(name+"-t", i), name, "", cpus[i], 0, vs.GpuSpec{}, statuses[i], nodes[i], w.vm)
+		}
 		aj.tasks = append(aj.tasks, t)
 	}
 	aj.job = vs.NewJob(name, queue, preemptible, prio, minMember, w.vm, aj.tasks...)
@@ -99,7 +109,7 @@ func (w *actWorld) open() {
 				CreationTimestamp: metav1.Time{Time: time.Date(2024, 1, 1, 0, i, 0, 0, time.UTC)}},
 			Spec: enginev2.QueueSpec{DisplayName: q.name, ParentQueue: q.parent, Resources: &enginev2.QueueResources{
 				GPU:    enginev2.QueueResource{Quota: -1, Limit: -1, OverQuotaWeight: 1},
-				CPU:    enginev2.QueueResource{Quota: q.deserved, Limit: q.limit, OverQuotaWeight: 1},
+				CPU:    enginev2.QueueResource{Quota: -1, Limit: -1, OverQuotaWeight: 1},
 				Memory: enginev2.QueueResource{Quota: -1, Limit: -1, OverQuotaWeight: 1},
 			}},
 		}
@@ -108,6 +118,11 @@ func (w *actWorld) open() {
 		}
 		if q.preemptMinH != nil {
 			obj.Spec.PreemptMinRuntime = &metav1.Duration{Duration: time.Duration(*q.preemptMinH) * time.Hour}
+		}
+		if w.gpuDim {
+			obj.Spec.Resources.GPU = enginev2.QueueResource{Quota: q.deserved, Limit: q.limit, OverQuotaWeight: 1}
+		} else {
+			obj.Spec.Resources.CPU = enginev2.QueueResource{Quota: q.deserved, Limit: q.limit, OverQuotaWeight: 1}
 		}
 		qi := queue_info.NewQueueInfo(obj)
 		qmap[qi.UID] = qi
@@ -167,8 +182,10 @@ type actOpts struct {
 	symCreated    bool // symbolic creation times (else job i created at second i)
 	symLimits     bool // department and qa limits unlimited or symbolic (else unlimited)
 	symPreempt    bool // preemptibility explored (else preemptible)
-	existing      int  // pods already on node n0 (queue qb), each running or terminating, symbolic cpu
-	gang          int  // job j0 is a gang of this many tasks with minMember == size (0/1: single pod)
+	existing      int  // pods already on node n0 (queue qb unless existingInQa), each in one of existingSt (default running or terminating), symbolic cpu
+	existingInQa  bool
+	existingSt    []pod_status.PodStatus
+	gang          int // job j0 is a gang of this many tasks with minMember == size (0/1: single pod)
 }
 
 // actAllocateWorld: department d with leaf queues qa, qb; nodes with symbolic cpu; pending
@@ -232,8 +249,16 @@ func actAllocateWorld(o actOpts) *actWorld {
 		name := vs.Name("e", i)
 		cpu := vr.AnyFloatNat(name+".cpu", o.bits)
 		vr.Assume(cpu >= 10)
-		st := []pod_status.PodStatus{pod_status.Running, pod_status.Releasing}[vr.Choose(name+".status", 2)]
-		w.addJob(name, "qb", true, 0, 0, 1, []float64{cpu}, []pod_status.PodStatus{st}, []string{"n0"})
+		sts := o.existingSt
+		if len(sts) == 0 {
+			sts = []pod_status.PodStatus{pod_status.Running, pod_status.Releasing}
+		}
+		st := sts[vr.Choose(name+".status", len(sts))]
+		eq := "qb"
+		if o.existingInQa {
+			eq = "qa"
+		}
+		w.addJob(name, eq, true, 0, 0, 1, []float64{cpu}, []pod_status.PodStatus{st}, []string{"n0"})
 	}
 	w.open()
 	for n, node := range w.nodes {
@@ -252,6 +277,9 @@ func (w *actWorld) symbolicFairShares(bits int) {
 		attrs := w.pp.queues[common_info.QueueID(q.name)]
 		fs := vr.AnyFloatNat("fairShare."+q.name, bits+3)
 		share := &attrs.CPU
+		if w.gpuDim {
+			share = &attrs.GPU
+		}
 		capped := share.Request
 		if share.MaxAllowed >= 0 && share.MaxAllowed < capped {
 			capped = share.MaxAllowed
@@ -262,8 +290,13 @@ func (w *actWorld) symbolicFairShares(bits int) {
 		}
 		vr.Assume(fs >= lower && fs <= capped)
 		fsOf[q.name] = fs
-		w.setFS(attrs, rs.CpuResource, fs)
-		w.setFS(attrs, rs.GpuResource, 0)
+		if w.gpuDim {
+			w.setFS(attrs, rs.GpuResource, fs)
+			w.setFS(attrs, rs.CpuResource, attrs.CPU.Request)
+		} else {
+			w.setFS(attrs, rs.CpuResource, fs)
+			w.setFS(attrs, rs.GpuResource, 0)
+		}
 		w.setFS(attrs, rs.MemoryResource, 0)
 	}
 	for _, p := range w.queues {
